@@ -7,7 +7,7 @@
    out is new, and liveness of handed-out keys is membership in the abstract set of live keys.  The old Root::reinit (a
    fresh map instead of a drain) is refuted: finding F28.  Statements only; proofs in Reactive/ArenaFacts.v. *)
 From Coq Require Import List NArith Arith Bool.
-From Syc Require Import Reactive.Arena Reactive.ArenaFacts Reactive.ArenaDriver.
+From Syc Require Import Reactive.Arena Reactive.ArenaFacts Reactive.ArenaDriver Reactive.ArenaSpec.
 Import ListNotations.
 Open Scope N_scope.
 
@@ -82,6 +82,42 @@ Proof. exact D4_reinit_kills. Qed.
 Theorem C04a_driver_new_root_alive : forall dops,
   alive_h (dfold (dops ++ [DReinit])) (length (handles (dfold dops))) = true.
 Proof. intro dops. exact (proj1 (D4_new_root_alive dops)). Qed.
+
+(* ---- the printed observable itself (`drun dinit dops`, one line per step: what tools/arena.py compares with the real driver's
+   output) and an ARENA-FREE specification of liveness (`live_spec`: numbers of the handles that are alive, computed from the
+   ownership table alone) -- Reactive/ArenaSpec.v ---- *)
+
+(* every printed line has pairwise distinct raw keys *)
+Theorem C04a_lines_keys_distinct : forall dops,
+  N.of_nat (length (handles (dfold dops))) < 2147483647 ->
+  Forall (fun line => NoDup (map fst line)) (drun dinit dops).
+Proof. exact S3a_lines_nodup. Qed.
+
+(* an entry printed dead on some line is printed dead, with the same raw key, on every later line *)
+Theorem C04a_lines_dead_stays_dead : forall dops i i' j li li' x,
+  N.of_nat (length (handles (dfold dops))) < 2147483647 ->
+  (i <= i')%nat ->
+  nth_error (drun dinit dops) i = Some li ->
+  nth_error (drun dinit dops) i' = Some li' ->
+  nth_error li j = Some (x, false) ->
+  nth_error li' j = Some (x, false).
+Proof. exact S3b_dead_stays_dead_lines. Qed.
+
+(* liveness of every handle = membership in the arena-free specification: created, and neither disposed (itself, with its
+   owner or its owner's owner) nor swept by a re-initialisation since *)
+Theorem C04a_alive_iff_spec : forall dops h,
+  N.of_nat (length (handles (dfold dops))) < 2147483647 ->
+  (alive_h (dfold dops) h = true <-> In h (live_spec dops)).
+Proof. exact driver_alive_iff_spec_all. Qed.
+
+(* a disposal kills the handle, what it owns and what that owns -- and nothing else *)
+Theorem C04a_dispose_exact : forall dops h,
+  N.of_nat (length (handles (dfold (dops ++ [DDel h])))) < 2147483647 ->
+  alive_h (dfold dops) h = true ->
+  alive_h (dfold (dops ++ [DDel h])) h = false /\
+  (forall x, In x (kill_set (owned (dfold dops)) h) -> alive_h (dfold (dops ++ [DDel h])) x = false) /\
+  (forall x, ~ In x (kill_set (owned (dfold dops)) h) -> alive_h (dfold (dops ++ [DDel h])) x = alive_h (dfold dops) x).
+Proof. exact S2_del_exact. Qed.
 
 (* non-vacuity: a history that re-uses a slot meets the hypotheses; the re-used slot's old key is dead, its new key alive *)
 Example C04a_example :
